@@ -52,7 +52,7 @@ def binop(interp, op, a, b, node):
                 return VList(a.items + b.items)
             return list_concat(interp, a, b)
     if isinstance(op, ast.Mod) and isinstance(a, VStr):
-        raise Unsupported("% string formatting")
+        return _percent_format(interp, a, b, node)
     if isinstance(op, ast.Mult) and isinstance(a, VStr) and isinstance(b, VInt):
         n = concrete_int(b.z)
         if n is None:
@@ -1748,6 +1748,68 @@ def _sorted(it, a, k, n):
 
 
 HEX = z3.Function("py_hex", IntS, StrS)
+
+
+def _percent_format(interp, fmt, args, node):
+    """printf-style formatting with a constant format string and the conversions %s %b %d %x %%"""
+    cf = concrete_str(fmt.z)
+    if cf is None:
+        raise Unsupported("% formatting with a symbolic format string")
+    items = list(args.items) if isinstance(args, VTuple) else [args]
+    out, i, k = [], 0, 0
+    lit = ""
+    while i < len(cf):
+        ch = cf[i]
+        if ch != "%":
+            lit += ch
+            i += 1
+            continue
+        if i + 1 >= len(cf):
+            raise Unsupported("% formatting: dangling %")
+        conv = cf[i + 1]
+        i += 2
+        if conv == "%":
+            lit += "%"
+            continue
+        if lit:
+            out.append(z3.StringVal(lit))
+            lit = ""
+        if k >= len(items):
+            interp.raise_("TypeError", node=node)
+        v = interp.need(items[k])
+        k += 1
+        if conv in ("s", "b"):
+            if isinstance(v, VByteArray):
+                v = VStr(v.z, "bytes")
+            if fmt.kind == "bytes" and not (isinstance(v, VStr) and v.kind == "bytes"):
+                interp.raise_("TypeError", node=node)
+            out.append(to_str(interp, v, node).z if fmt.kind == "str" else v.z)
+        elif conv == "d":
+            if not is_num(v):
+                interp.raise_("TypeError", node=node)
+            out.append(int_to_str(as_int(v)))
+        elif conv == "x":
+            if not is_num(v):
+                interp.raise_("TypeError", node=node)
+            n_ = as_int(v)
+            digits = HEX(n_)
+            interp.ctx.assume(z3.InRe(digits, z3.Plus(z3.Union(z3.Range(z3.StringVal("0"), z3.StringVal("9")),
+                                                                z3.Range(z3.StringVal("a"), z3.StringVal("f"))))), "hex():digits")
+            if concrete_int(n_) is not None:
+                out.append(z3.StringVal("%x" % concrete_int(n_)))
+            elif not interp.spec and interp.branch(n_ < 0, "hex-negative"):
+                out.append(z3.Concat(z3.StringVal("-"), HEX(-n_)))
+            else:
+                out.append(digits)
+        else:
+            raise Unsupported(f"% formatting: conversion %{conv}")
+    if lit:
+        out.append(z3.StringVal(lit))
+    if k != len(items):
+        interp.raise_("TypeError", node=node)
+    if not out:
+        return VStr(z3.StringVal(""), fmt.kind)
+    return VStr(z3.Concat(*out) if len(out) > 1 else out[0], fmt.kind)
 
 
 def _hex(it, a, k, n):
